@@ -62,7 +62,9 @@ theorem known_roundtrip_findings :
 
 /-- **every buffer is sized by the field documented to size it**: the (command, buffer, length) and
     (command, list, count) relations the regenerated unmarshal programs rely on are exactly the pinned
-    ones of `Spec/SmbRelations.lean` (50 relations).  A decoder that starts reading a buffer with another
+    ones of `Spec/SmbRelations.lean` (54 relations: 50 buffers and lists, and the arithmetic behind the two `Pad`
+    fields of SESSION_SETUP_ANDX — `padLen` starts from `UnicodePasswordLen` and is rounded up to even / starts from 0
+    and is 1 when `len(P)+3` is odd).  A decoder that starts reading a buffer with another
     count field makes this fail, and the round-trip specification — which uses the pinned table —
     then exhibits an assignment that no longer survives. -/
 theorem length_relations_pinned :
@@ -198,38 +200,38 @@ theorem smb_reencode (c : Cmd) (hmem : c ∈ commands) (hm : Mirror c = true) (e
 
 /-! ## the loop fragment: list fields marshalled by a `range` loop and read back by a counted loop -/
 
-/-- **Which commands the loop fragment adds**: exactly these six satisfy `MirrorLoops` without satisfying
+/-- **Which commands the loop fragment adds**: exactly these eight satisfy `MirrorLoops` without satisfying
     `Mirror`.  LockingAndxRequest: two lists of LOCKING_ANDX_RANGE64 written by `range` loops and read back by
     counted loops running to `NumberOfRequestedUnlocks` / `NumberOfRequestedLocks` through 20-byte windows;
     OpenAndxRequest: the fixed array `Reserved [2]USHORT` written by a `range` loop and filled in place;
     TransactionRequest: `Setup []USHORT` read back by a loop running to `SetupCount` into a freshly made list;
     WriteAndxRequest, WriteRawRequest: `OffsetHigh` written iff non-zero as the last parameter field and read under
     `WordCount == 14`, the word count the block has with it (12 without);
+    SessionSetupAndxRequest, SessionSetupAndxResponse: `Pad` read with a length computed by arithmetic
+    (`UnicodePasswordLen` rounded up to even; one byte when `len(P)+3` is odd);
     WriteMpxRequest (and WriteAndxRequest): the last buffer read not followed by an advance of `offset`. -/
 theorem loop_mirror_commands :
     (commands.filter (fun c => MirrorLoops c && !Mirror c)).map (·.name) =
-      ["LockingAndxRequest", "OpenAndxRequest", "TransactionRequest", "WriteAndxRequest", "WriteMpxRequest",
-       "WriteRawRequest"] := by decide +kernel
+      ["LockingAndxRequest", "OpenAndxRequest", "SessionSetupAndxRequest", "SessionSetupAndxResponse",
+       "TransactionRequest", "WriteAndxRequest", "WriteMpxRequest", "WriteRawRequest"] := by decide +kernel
 
 /-- `MirrorLoops` extends `Mirror`: each of the 90 `Mirror` commands satisfies it -/
 theorem mirror_loops_extends : commands.all (fun c => !Mirror c || MirrorLoops c) = true := by decide +kernel
 
-/-- **What is still outside**: exactly these 19 commands satisfy neither predicate; for them the round trip is
+/-- **What is still outside**: exactly these 17 commands satisfy neither predicate; for them the round trip is
     decided by the correspondence runs only.  Thirteen carry a recorded structural finding
     (`known_roundtrip_findings`: a field never marshalled / never unmarshalled, the whole buffer read three times,
     `OffsetHigh` of ReadRawRequest under a word count its own Marshal never reaches, the optional array of
-    WriteAndCloseRequest, a 43-byte window for 53-byte entries); of the other six FindCloseResponse and
+    WriteAndCloseRequest, a 43-byte window for 53-byte entries); of the other four FindCloseResponse and
     WriteAndUnlockRequest decode a nested string from the whole block instead of from `offset`, RenameRequest
-    reads its attributes without checking the error or using the count, WriteRequest puts its buffer ahead of the
-    parameter block, and the two SESSION_SETUP_ANDX structures size a padding field by arithmetic on
-    lengths (`setPad` / `padRoundUp` / `padIfPOdd`). -/
+    reads its attributes without checking the error or using the count, and WriteRequest puts its buffer ahead of
+    the parameter block. -/
 theorem non_mirror_loops_commands :
     (commands.filter (fun c => !MirrorLoops c)).map (·.name) =
       ["CreateTemporaryResponse", "FindCloseResponse", "FindResponse", "FindUniqueResponse", "LockAndReadResponse",
        "NegotiateRequest", "NegotiateResponse", "OpenAndxResponse",
        "QueryInformation2Response", "QueryInformationResponse", "ReadRawRequest", "ReadResponse", "RenameRequest",
-       "SessionSetupAndxRequest", "SessionSetupAndxResponse", "TreeConnectRequest",
-       "WriteAndCloseRequest", "WriteAndUnlockRequest", "WriteRequest"] := by decide +kernel
+       "TreeConnectRequest", "WriteAndCloseRequest", "WriteAndUnlockRequest", "WriteRequest"] := by decide +kernel
 
 /-- **C04, generic round trip over the loop fragment.**  As `mirror_roundtrip`, for every command whose
     regenerated programs satisfy `MirrorLoops`: the only statements outside the straight-line fragment are
@@ -242,7 +244,9 @@ theorem non_mirror_loops_commands :
     loop marshals a copy, so the sender keeps the element as it was).  The codec laws are needed on the element
     types too (`Cmd.subTypesL`).  An integer emitted iff non-zero (`if c.F != 0 { … }`, last parameter field behind
     fixed-width fields) against `if WordCount == k { … }`: both forms round-trip, `WordCount` telling which
-    (`optTrailing`: `k` is the word count with the field and not the one without).
+    (`optTrailing`: `k` is the word count with the field and not the one without).  A buffer whose length is the
+    local `padLen` (`padLen := int(c.G)` / `0`, then `if padLen%2 == 1 { padLen++ }` or `if (len(P)+3)%2 == 1 { padLen = 1 }`):
+    `consistent` asks that the sender's buffer has the length that arithmetic gives (`relationsHold`).
     `receiverFits` is what Unmarshal takes from the receiving structure instead of from the wire: a fixed array has
     the length of the sender's — in Go both have the declared length `[n]T`; the model's environments are untyped —,
     and an optional integer the sender holds as zero is zero in the receiver (a structure fresh from `New…()`; decoding
@@ -279,7 +283,7 @@ private theorem loops_side (c : Cmd) (hmem : c ∈ commands) (hm : MirrorLoops c
     beq_iff_eq] at h
   exact ⟨h.1.1, h.1.2, h.2⟩
 
-/-- **C04 for the regenerated commands, loop fragment.**  Each of the 96 `MirrorLoops` command structures of this
+/-- **C04 for the regenerated commands, loop fragment.**  Each of the 98 `MirrorLoops` command structures of this
     tree round-trips every declared field and its AndX block, for all internally consistent field values and all
     initial states of the receiver that fit (`receiverFits`), with the C06 models as nested codecs. -/
 theorem smb_loops_roundtrip (c : Cmd) (hmem : c ∈ commands) (hm : MirrorLoops c = true) (env0 env : Env)
@@ -465,5 +469,29 @@ theorem optional_stale_counterexample :
         | .ok d, .ok d5 => d.get "OffsetHigh" == some (.n 0) && d5.get "OffsetHigh" == some (.n 5)
         | _, _ => false)
     | _ => false) = true := by decide +kernel
+
+/-- SESSION_SETUP_ANDX response: one parameter word, so `(len(P)+3)%2 == 1` and the decoder expects one pad byte -/
+def sessionRespEnv : Env :=
+  [("Action", .n 1), ("Pad", .b [0]), ("NativeOS", .t ([1, 1], [[0x41]])), ("NativeLanMan", .t ([1, 1], [[0x42]])),
+   ("PrimaryDomain", .t ([1, 1], [[0x43]]))]
+
+example : MirrorLoops cmd_SessionSetupAndxResponse = true ∧ MirrorLoops cmd_SessionSetupAndxRequest = true := by decide +kernel
+example : (match encodeCmd Manticore.SmbCodecs.std cmd_SessionSetupAndxResponse sessionRespEnv with
+    | .ok bs => (match decodeCmd Manticore.SmbCodecs.std cmd_SessionSetupAndxResponse [] bs with
+      | .ok d => (cmd_SessionSetupAndxResponse.fields.map (·.1)).map d.get == (cmd_SessionSetupAndxResponse.fields.map (·.1)).map sessionRespEnv.get
+      | _ => false)
+    | _ => false) = true := by decide +kernel
+example : consistent Manticore.SmbCodecs.std cmd_SessionSetupAndxResponse sessionRespEnv = true := by
+  have hrun : runM Manticore.SmbCodecs.std cmd_SessionSetupAndxResponse sessionRespEnv =
+      .ok { P := [1, 0], D := [0, 1, 1, 0, 0x41, 1, 1, 0, 0x42, 1, 1, 0, 0x43], head := [],
+            env := prologueEnv true sessionRespEnv } := by rfl
+  have hax : andxOk true sessionRespEnv = true := by decide
+  have htup : ∀ v ∈ [([1, 1], [[0x41]]), ([1, 1], [[0x42]]), (([1, 1], [[0x43]]) : Tup)],
+      tupOk Manticore.SmbCodecs.std "SMB_STRING" v = true := by decide +kernel
+  unfold consistent
+  rw [hrun]
+  simp [intsFit, relationsHold, cmd_SessionSetupAndxResponse, sessionRespEnv, prologueEnv, Env.get, Env.set, wordCountOf,
+    andxWords, andxField, defaultAndX, evalEnv]
+  exact ⟨hax, htup _ (by simp), htup _ (by simp), htup _ (by simp)⟩
 
 end Manticore.C04
